@@ -350,6 +350,10 @@ class EnvHandle(object):
                     return v
                 if kind == "index_high":
                     return len(sp["allocations"]) + a.get("by", 0)
+                if kind in ("nan", "inf", "neginf"):
+                    v = np.zeros(n)
+                    v[a.get("pos", 0) % n] = {"nan": float("nan"), "inf": float("inf"), "neginf": -float("inf")}[kind]
+                    return v
                 return MALFORMED[kind](n)
             if "as" in a:
                 v = a["v"]
